@@ -216,30 +216,12 @@ class RefUnpickler(pickle._Unpickler):
                                  "T" if self.halted else "F")
 
 
-def _setitems_flag(self):
-    """D18 precondition: SETITEMS whose target is a stand-in object and whose keys are not pairwise
-    distinct hashable values (the decompiled `x.update({...})` hashes and merges them)"""
-    try:
-        if not (self.metastack and self.metastack[-1] and isinstance(self.metastack[-1][-1], Stub)):
-            return False
-        keys = self.stack[0::2]
-        try:
-            return len(set(keys)) < len(keys)
-        except TypeError:
-            return True
-    except Exception:
-        return False
-
-
 def _wrap(fn):
     is_build = fn is pickle._Unpickler.load_build
-    is_setitems = fn is pickle._Unpickler.load_setitems
 
     def handler(self):
         if is_build and len(self.stack) >= 2 and not isinstance(self.stack[-2], Stub):
             self.world.flags.add("build-on-plain-value")
-        if is_setitems and _setitems_flag(self):
-            self.world.flags.add("setitems-on-object")
         fn(self)
         self.trace.append(self._shape())
     return handler
@@ -500,11 +482,14 @@ def render_body(module):
     return " ".join(render_stmt(s) for s in module.body)
 
 
-def render_val(v, fuel=DEPTH):
+def render_val(v, fuel=DEPTH, norm=False):
+    """mirrors ShowVM.show_val_gen: [norm] renders True/False as 1/0 (the comparison key of set members
+    and dict keys); dict entries whose keys have the same comparison key are merged (first key, last
+    value) -- for a real dict that only happens where the depth cut prints both keys as (deep)"""
     if fuel == 0:
         return "(deep)"
     n = fuel - 1
-    go = lambda x: render_val(x, n)  # noqa: E731
+    go = lambda x: render_val(x, n, norm)  # noqa: E731
     if isinstance(v, Stub):
         if v._kind == "g":
             m, a = v._id
@@ -521,7 +506,18 @@ def render_val(v, fuel=DEPTH):
     if isinstance(v, frozenset):
         return "(" + " ".join(["frozenset"] + sorted({go(x) for x in v})) + ")"
     if isinstance(v, dict):
-        return "(" + " ".join(["dict"] + ["(%s %s)" % (go(k), go(x)) for k, x in v.items()]) + ")"
+        acc = []
+        for k, x in v.items():
+            kk = render_val(k, n, True)
+            for e in acc:
+                if e[0] == kk:
+                    e[2] = go(x)
+                    break
+            else:
+                acc.append([kk, go(k), go(x)])
+        return "(" + " ".join(["dict"] + ["(%s %s)" % (e[1], e[2]) for e in acc]) + ")"
+    if norm and isinstance(v, bool):
+        return render_const(int(v))
     return render_const(v)
 
 
